@@ -285,6 +285,10 @@ type havocEvent struct {
 	KeepFrom   *Term
 	KeepExcept []*Term
 	Prev       map[string]*Term
+	// KeepBelow: only objects allocated by the havocked code itself may differ (contract clause "allocates"):
+	// cells of references below KeepBelow keep their values
+	KeepBelow *Term
+	Index     int // position in the havoc log
 }
 
 type HeapView struct {
@@ -696,8 +700,9 @@ func (st *State) heapGet(h *HeapView, key string, s Sort, isRef bool) *Term {
 			epoch = st.havocLog[i].ID
 			wm = st.havocLog[i].Watermark
 			keepEv = nil
-			if st.havocLog[i].KeepFrom != nil {
+			if st.havocLog[i].KeepFrom != nil || st.havocLog[i].KeepBelow != nil {
 				keepEv = &st.havocLog[i]
+				keepEv.Index = i
 			}
 		}
 	}
@@ -716,7 +721,18 @@ func (st *State) heapGet(h *HeapView, key string, s Sort, isRef bool) *Term {
 	if fresh && (strings.HasSuffix(key, "$l") || strings.HasSuffix(key, "$c")) {
 		st.nonNegAxiom(t)
 	}
-	if fresh && keepEv != nil && s.IsArray() {
+	if fresh && keepEv != nil && keepEv.KeepBelow != nil && s.IsArray() && (strings.HasPrefix(key, "F|") || strings.HasPrefix(key, "B|") || strings.HasPrefix(key, "E|") || strings.HasPrefix(key, "MH|") || strings.HasPrefix(key, "MV|")) {
+		if i1, _ := s.ArrayParts(); i1 == SInt {
+			prev, ok := keepEv.Prev[key]
+			if !ok {
+				// never written on this path before the event: the array as it was just before the event
+				prev = st.heapGet(&HeapView{vers: map[string]*Term{}, logLen: keepEv.Index}, key, s, isRef)
+			}
+			v := Const("i!qkeep", SInt)
+			st.assume(Forall([]*Term{v}, Implies(And(Ge(v, IntLit(0)), Lt(v, keepEv.KeepBelow)), Eq(Select(t, v), Select(prev, v))), Select(t, v)))
+		}
+	}
+	if fresh && keepEv != nil && keepEv.KeepFrom != nil && s.IsArray() {
 		if prev, ok := keepEv.Prev[key]; ok && (strings.HasPrefix(key, "F|") || strings.HasPrefix(key, "B|") || strings.HasPrefix(key, "E|") || strings.HasPrefix(key, "MH|") || strings.HasPrefix(key, "MV|")) {
 			if i1, _ := s.ArrayParts(); i1 == SInt {
 				v := Const("i!qkeep", SInt)
@@ -744,6 +760,21 @@ func (st *State) havocKeeping(patterns []string, keepFrom *Term, except []*Term)
 	st.havoc(patterns, nil)
 	ev := &st.havocLog[len(st.havocLog)-1]
 	ev.KeepFrom, ev.KeepExcept, ev.Prev = keepFrom, except, prev
+}
+
+// havocFresh is havoc for code that changes the matching arrays only at objects it allocates itself.
+func (st *State) havocFresh(patterns []string) {
+	prev := map[string]*Term{}
+	probe := havocEvent{Patterns: patterns}
+	for k, v := range st.heap.vers {
+		if probe.matches(k) {
+			prev[k] = v
+		}
+	}
+	below := st.define("allocwm", st.watermark())
+	st.havoc(patterns, nil)
+	ev := &st.havocLog[len(st.havocLog)-1]
+	ev.KeepBelow, ev.Prev = below, prev
 }
 
 // nonNegAxiom: slice headers stored in the heap have non-negative length, offset and capacity.
